@@ -75,7 +75,7 @@ def strategy(ctx):
 
 
 def run(ctx):
-    n = 32 if ctx.quick else 400
+    n = 20 if ctx.quick else 400
     cases = configs.collect(strategy(ctx), ctx.seed, n)
     cases += runcheck.known_cases("C01")
     return runcheck.execute_cases(ctx, "c01", cases, make_history, judge)
@@ -83,7 +83,7 @@ def run(ctx):
 
 def health(ctx, stats):
     probs = []
-    need = {"resumed-run": 3, "completed": 10}
+    need = {"resumed-run": 1, "completed": 6}
     if not ctx.quick:
         need = {"resumed-run": 40, "completed": 150}
     for k, v in need.items():
